@@ -302,6 +302,21 @@ def rt_partial_odd(req):
                         problems.append('partial-unicode: %s(partial(%s, **%r)) = %s %s (*%r, **%r) but the call %s' % (
                             gl, fl, kws, s, 'accepts' if acc else 'rejects', args, kw, 'runs' if runs[0] == 'ok' else 'raises TypeError'))
                         break
+        def tagf(name, **attrs): return (name, attrs)
+        for kws in ({'class': 'x'}, {'data-id': 1}, {'ok': 1, 'class': 2}, {'': 0}, {'1st': 1, 'name': 'n'}):
+            p = functools.partial(tagf, **kws)
+            for gl, getter in (('sigtools.signature', sigtools.signature), ('signatures.signature', signatures.signature)):
+                got = _try(lambda: getter(p))
+                want = _try(lambda: inspect.signature(p))
+                if got[0] != want[0]:
+                    problems.append('partial-odd-keyword: %s(partial(tag, **%r)) -> %s, inspect.signature -> %s' % (gl, kws, got if got[0] != 'ok' else str(got[1]), want if want[0] != 'ok' else str(want[1])))
+                    continue
+                if got[0] == 'ok':
+                    for args in ((), ('n',), ('n', 'm')):
+                        acc = _try(lambda: got[1].bind(*args))[0] == 'ok'
+                        runs = _try(lambda: p(*args))
+                        if acc != (runs[0] == 'ok'):
+                            problems.append('partial-odd-keyword: %s(partial(tag, **%r)) = %s %s %r but the call %s' % (gl, kws, got[1], 'accepts' if acc else 'rejects', args, runs))
         src = ('def callee(y, *, z=0): return (y, z)\ndef other(q, r=1): return (q, r)\n'
                'def w(cb, extra, *args, **kwargs):\n    return cb(*args, **kwargs)\n'
                'def wg(extra, *args, **kwargs):\n    return TARGET(*args, **kwargs)\nTARGET = callee\n')
